@@ -3363,6 +3363,9 @@ func (t *transport) RoundTrip(hc *HostClient, req *Request, resp *Response) (ret
 
 	br := hc.AcquireReader(conn)
 	err = resp.ReadLimitBody(br, hc.MaxResponseBodySize)
+	// Don't leave the SkipBody forced for a HEAD request in the caller's Response,
+	// otherwise the body of the next non-HEAD response read into it is skipped too.
+	resp.SkipBody = customSkipBody
 	if err != nil {
 		hc.ReleaseReader(br)
 		hc.CloseConn(cc)
@@ -3372,6 +3375,11 @@ func (t *transport) RoundTrip(hc *HostClient, req *Request, resp *Response) (ret
 	}
 
 	closeConn := resetConnection || req.ConnectionClose() || resp.ConnectionClose()
+	if customSkipBody && !req.Header.IsHead() && !resp.Header.mustSkipContentLength() && resp.Header.ContentLength() != 0 {
+		// The caller skipped the body of a response that carries one. The body
+		// is still unread on the wire, so the connection can't be reused.
+		closeConn = true
+	}
 	if customStreamBody && resp.bodyStream != nil {
 		rbs := resp.bodyStream
 		var closed atomic.Bool
